@@ -46,6 +46,11 @@ Spec == Init /\ [][Next]_vars
 AX   == Configs[cfg].ax
 Full == Configs[cfg].full
 
+\* two strictly increasing coordinate maps: a cubic one and one that pushes the two signs far apart
+Cubic(k)  == k * k * k - 7
+Spread(k) == IF k < 0 THEN k - 900000 ELSE IF k > 0 THEN k + 900000 ELSE 0
+ASSUME StrictlyIncreasing(Cubic, -4..5) /\ StrictlyIncreasing(Spread, -4..5)
+
 BoxLaws ==
   kind = "box" =>
     /\ LawEmpty(a, AX)
@@ -61,6 +66,7 @@ PointLaws ==
     /\ LawClamp(a, p, AX)
     /\ LawTranslate(a, p, AX, WideOf[cfg])
     /\ LawScale(a, p, AX)
+    /\ (Full => (LawMonotonePt(Cubic, a, p) /\ LawMonotonePt(Spread, a, p)))
 PairLaws ==
   kind = "pair" =>
     /\ LawExtendBox(a, b, AX)
@@ -68,6 +74,7 @@ PairLaws ==
     /\ LawIntersection(a, b, AX)
     /\ LawDisjoint(a, b, AX)
     /\ LawDisjointTouching(a, b)
+    /\ (Full => (LawMonotonePair(Cubic, a, b) /\ LawMonotonePair(Spread, a, b)))
 
 \* Sharpness (constant level): why LawDisjoint and LawExtendBox are restricted to proper operands -
 \* with an inverted operand the comparison formulas no longer describe the (empty) point set.
